@@ -81,6 +81,20 @@ class Run:
             return True
         return False
 
+    def defer(self, reading_group, value_group, decided, credits=()):
+        """The other direction of forgive, for a reading group that covers exactly the facts of a value group: when the reading could not
+        read this organisation of the code and the value group decided all its instances (decided = their number, no refusal), the
+        reading's refusal is not a refusal of the check.  Findings of the value group are reported as findings in any case."""
+        r = [e for e in self.errors if e.startswith(reading_group + ':')]
+        v = [e for e in self.errors if e.startswith(value_group + ':')]
+        if r and not v and decided:
+            self.errors = [e for e in self.errors if e not in r]
+            self.infos.append('%s could not read this organisation (%s); the same facts were decided on values by %s (%d instances)' % (reading_group, r[0][len(reading_group) + 2:][:200], value_group, decided))
+            for rule, n in credits:
+                self.credit(rule, n, '%s refused; decided by %s' % (reading_group, value_group))
+            return True
+        return False
+
     # -- recording ---------------------------------------------------------
     def rule(self, name, text):
         """Declare a rule (its one-line statement appears in the evidence)."""
